@@ -59,7 +59,10 @@ Nest == {Wrap(Leaf(W0, k, SubSeq(Seq3(k), 1, 2)), d) : k \in Kinds, d \in 1..3}
 
 NestNames == {Wrap([what |-> W0, fields |-> <<Fld(nm, "int32", 1), Fld(NB, "string", 2)>>], d) : nm \in {<<195, 169>>, <<110, 255>>, <<>>}, d \in 1..2}
 
-Vectors == CASE Part = "single" -> Single [] Part = "nest" -> Nest \cup NestNames [] Part = "all" -> Single \cup Nest \cup NestNames \cup UNION {Pairs(k) : k \in Kinds}
+\* three fields of any three kinds (thorough tier)
+Triples == {[what |-> <<0, 0, 0, 128>>, fields |-> <<Fld(NA, k, 1), Fld(<<99, 195, 169>>, k2, 2), Fld(NB, k3, 3)>>] : k \in Kinds, k2 \in Kinds, k3 \in Kinds}
+
+Vectors == CASE Part = "single" -> Single [] Part = "triples" -> Triples [] Part = "nest" -> Nest \cup NestNames [] Part = "all" -> Single \cup Nest \cup NestNames \cup UNION {Pairs(k) : k \in Kinds}
              [] OTHER -> Pairs(Part)
 
 Init == v \in Vectors
